@@ -142,13 +142,19 @@ def explore_fn(prog, fn_path, self_label="self", step_only=(), extra_models=(), 
     if body.arg_count >= 1 and body.debug_name(1) == "self":
         ty = TyRef(body.types, body.locals[1]["ty"])
         if ty.rec.get("k") == "ref":
-            obj = self_value if self_value is not None else it.materialize(ty.pointee(), self_label)
+            obj = self_value
+            if obj is None and it.variants_of(ty.pointee()) is None:
+                obj = it.materialize(ty.pointee(), self_label)
             if obj is None:
                 obj = it.symbolic(ty.pointee(), self_label)
             st.heap[self_label] = obj
             args.append(Ref(self_label, (), ty.rec.get("mut", False)))
         else:
-            obj = self_value if self_value is not None else (it.materialize(ty, self_label) or it.symbolic(ty, self_label))
+            obj = self_value
+            if obj is None and it.variants_of(ty) is None:
+                obj = it.materialize(ty, self_label)
+            if obj is None:
+                obj = it.symbolic(ty, self_label)
             args.append(obj)
         first = 2
     for l in range(first, body.arg_count + 1):
@@ -178,7 +184,7 @@ def expr_of(pa, v, depth=0):
         if v and v[0] == "&" and len(v) == 2:
             return expr_of(pa, v[1], depth + 1)
         return tuple(expr_of(pa, x, depth + 1) for x in v)
-    if isinstance(v, str) and v.startswith("top:ret:"):
+    if isinstance(v, str) and (v.startswith("top:ret:") or v.startswith("sym:ret:")):
         lab = v[4:]
         base = lab
         suffix = ""
